@@ -836,7 +836,7 @@ def run(prop, tier, seed, replay, keep):
             return r
 
         def go_witness(_):
-            upath, n = upath_of("mut_U_MutDel", ["U_MutDel"])
+            upath, n = upath_of("mut_U_MutNew", ["U_MutNew"])
             wd = tlc.workdir("C18_wit")
             try:
                 consts = {"Dev": "{}", "AsIs": S_(ASIS), "SrcSafes": "{TRUE}", "Stages3": "FALSE"}
